@@ -57,7 +57,14 @@ def generate(rng, index, tier):
         ops = []
         for _ in range(rng.randint(1, 4)):
             r = rng.random()
-            if r < 0.4:
+            if r < 0.07:
+                # a page fault of this thread with a nested real-fault record that carries a pid (decoding it declares nothing)
+                s_, e_ = worlds.domains.draw(rng, 'MACH_vmfault')
+                e_[2] = 0
+                rs, _ = worlds.domains.draw(rng, 'RealFaultAddressInternal')
+                rs[3] = rng.pick(list(pids.values()))
+                ops.append({'k': 'sys', 'name': 'MACH_vmfault', 's': s_, 'e': e_, 'in': [{'k': 'one', 'name': 'RealFaultAddressInternal', 'q': 0, 'a': rs}]})
+            elif r < 0.4:
                 ops += worlds.op_window(rng, rng.pick(['BSC_open', 'BSC_read', 'BSC_stat64', 'MSC_mach_vm_allocate_trap', 'BSC_getpid',
                                                         'BSC_close_nocancel' if False else 'BSC_sys_close']), ctx)
             elif r < 0.6:
@@ -70,7 +77,7 @@ def generate(rng, index, tier):
             elif r < 0.9:
                 target = rng.pick(tids)
                 nfr = rng.randint(1, 5)
-                ops.append(worlds.op_sample(rng, flags=9, thd=(rng.pick([pids[target], 61000 + rng.randrange(5)]), target),
+                ops.append(worlds.op_sample(rng, flags=9, thd=(rng.pick([pids[target], 61000 + rng.randrange(5), (1 << 64) - 1, 0xffffffff, 0]), target),
                                             uhdr=(1, nfr), udata=[[rng.randrange(1, 1 << 40) for _ in range(4)] for _ in range(2)]))
             elif r < 0.94:
                 # a thread-terminate record naming a (declared or undeclared) simulated thread: not a map-updating record
@@ -93,7 +100,7 @@ def generate(rng, index, tier):
     version = rng.pick([2, 2, 3])
     w = worlds.gen_writer(rng, version, threads, sum(len(p) for p in per), logs=True)
     names = {}
-    w['tmap'] = [[t, pids[t], names.setdefault(pids[t], rng.ident(2, 12)), ''] for t in declared]
+    w['tmap'] = [[t, pids[t], names.setdefault(pids[t], rng.ident(2, 12)), rng.pick(['', '', 'ff41', '726f787900', '00414243'])] for t in declared]
     if rng.chance(0.3):
         w['tmap'].append([rng.randrange(5000, 6000), 62000, rng.ident(2, 8), ''])
     if version == 2:
